@@ -113,9 +113,18 @@ func (r *zzRef) get(k []byte) []byte {
 func zzBuild(nk, maxLen int) (*InMemoryTrie, *zzRef) {
 	t := NewEmptyTrie()
 	ref := &zzRef{}
+	var prev []byte
 	for i := 0; i < nk; i++ {
 		k := zzKey("k"+string(rune('0'+i)), maxLen)
+		if i > 0 && vrt.Param("sorted", 0) == 1 {
+			// symmetry reduction (stated bound): keys are inserted in strictly ascending order
+			vrt.Assume(zzLess(prev, k))
+		}
+		prev = k
 		v := []byte{byte(i + 1)}
+		if vrt.Param("emptyval", 0) == 1 && vrt.Bool("v"+string(rune('0'+i))+"_empty") {
+			v = []byte{} // present but empty value
+		}
 		if err := t.Put(k, v); err != nil {
 			vrt.Assert("put_ok", false)
 		}
